@@ -78,7 +78,21 @@ func keccak(b []byte) []byte {
 }
 
 // ---------- Coq literals ----------
-func hs(s string) string { return hx.CoqHex([]byte(s)) }
+func hs(s string) string {
+	for i := 0; i < len(s); i++ {
+		if s[i] < 0x20 || s[i] > 0x7e {
+			return "(H " + hx.CoqHex([]byte(s)) + ")"
+		}
+	}
+	return "(A " + hx.CoqStr(s) + ")"
+}
+
+func optS(have, declared string) string {
+	if have == declared {
+		return "None"
+	}
+	return "(Some " + hs(have) + ")"
+}
 
 func coqTx(tx *types.Transaction) string {
 	sg := "\"\""
@@ -188,9 +202,20 @@ func ethOracle(enc []byte) []oent {
 	if r == nil || s == nil {
 		return nil
 	}
+	// the one query EIP155Signer.Sender can make: Homestead digest for V = 27/28, this chain's EIP-155 digest
+	// for V = 35/36 + 2*chain; no query otherwise
+	var hashes [][]byte
+	var vs []byte
+	v155 := new(big.Int).Sub(t.V, new(big.Int).Add(big.NewInt(35), new(big.Int).Lsh(chainBig, 1)))
+	switch {
+	case t.V.Cmp(big.NewInt(27)) == 0 || t.V.Cmp(big.NewInt(28)) == 0:
+		hashes, vs = [][]byte{sigHash(&t, nil)}, []byte{byte(t.V.Uint64() - 27)}
+	case v155.Sign() == 0 || v155.Cmp(big.NewInt(1)) == 0:
+		hashes, vs = [][]byte{sigHash(&t, chainBig)}, []byte{byte(v155.Uint64())}
+	}
 	var out []oent
-	for _, h := range [][]byte{sigHash(&t, chainBig), sigHash(&t, nil)} {
-		for v := byte(0); v < 2; v++ {
+	for _, h := range hashes {
+		for _, v := range vs {
 			sig := append(append(append([]byte{}, r...), s...), v)
 			e := oent{h: h, rs: sig[:64], v: v, ok: true}
 			pub, err := crypto.Ecrecover(h, append([]byte{}, sig...))
@@ -224,7 +249,14 @@ func ethObs(tx *types.Transaction) string {
 		return fmt.Sprintf("(ESender %d%%N)", c)
 	}
 	x := eth_tx.ConvertTx(et, sender, enc)
-	return fmt.Sprintf("(EConv %s %s %s %s %s %s %d%%N)", hs(x.Source), hs(x.Target), hs(x.Data), hs(x.ExtraData), hx.CoqHex(x.Hash.Bytes()), hs(x.ChainId), x.Nonce)
+	h, n := "None", "None"
+	if x.Hash != tx.Hash {
+		h = "(Some " + hx.CoqHex(x.Hash.Bytes()) + ")"
+	}
+	if x.Nonce != tx.Nonce {
+		n = fmt.Sprintf("(Some %d%%N)", x.Nonce)
+	}
+	return fmt.Sprintf("(EConv %s %s %s %s %s %s %s)", optS(x.Source, tx.Source), optS(x.Target, tx.Target), optS(x.Data, tx.Data), optS(x.ExtraData, tx.ExtraData), h, optS(x.ChainId, tx.ChainId), n)
 }
 
 func addCase(class string, tx *types.Transaction, code int) {
@@ -244,8 +276,12 @@ func addCase(class string, tx *types.Transaction, code int) {
 	for i, o := range orc {
 		os[i] = o.coq()
 	}
-	gh := tx.GenHash()
-	term := fmt.Sprintf("(%s, %s%%N, %s, %s, Obs %d%%N %s %s)", hs(chainStr), chainBig.String(), coqTx(tx), hx.CoqList(os), code, hx.CoqHex(gh.Bytes()), ethObs(tx))
+	gh := hx.CoqHex(tx.GenHash().Bytes())
+	caseNo++
+	if tx.Type == types.TransactionTypeETHTX && caseNo%8 != 0 {
+		gh = "\"\"" // GenHash plays no role on the Ethereum path: compared on a sample only (long preimages)
+	}
+	term := fmt.Sprintf("(%s, %s%%N, %s, %s, Obs %d%%N %s %s)", hs(chainStr), chainBig.String(), coqTx(tx), hx.CoqList(os), code, gh, ethObs(tx))
 	cs.Add(term, map[string]interface{}{"class": class, "tx": jsonTx(tx), "verdict": code})
 }
 
@@ -284,7 +320,6 @@ func nativeConjuncts(tx *types.Transaction) string {
 	}
 	// the declared sender's key must verify the signature: find it by recovery with both ids, verify with
 	// the generic (math/big) ECDSA over the curve parameters
-	curve := csecp.S256()
 	for v := byte(0); v < 2; v++ {
 		pub, err := crypto.Ecrecover(tx.Hash.Bytes(), append(append([]byte{}, sb[:64]...), v))
 		if err != nil || len(pub) != 65 {
@@ -293,7 +328,7 @@ func nativeConjuncts(tx *types.Transaction) string {
 		if lowerAddr(pub[1:]) != tx.Source {
 			continue
 		}
-		pk := ecdsa.PublicKey{Curve: curve, X: new(big.Int).SetBytes(pub[1:33]), Y: new(big.Int).SetBytes(pub[33:])}
+		pk := ecdsa.PublicKey{X: new(big.Int).SetBytes(pub[1:33]), Y: new(big.Int).SetBytes(pub[33:])}
 		if genericVerify(&pk, tx.Hash.Bytes(), r, s) {
 			return ""
 		}
@@ -302,27 +337,77 @@ func nativeConjuncts(tx *types.Transaction) string {
 	return "recovered-key-is-not-declared-sender"
 }
 
-// textbook ECDSA verification with math/big (independent of libsecp256k1)
+// textbook ECDSA verification over secp256k1 with math/big affine arithmetic (independent of libsecp256k1
+// and of the repository's BitCurve, whose ScalarMult left-aligns coordinates that have a leading zero byte)
+var secpP, _ = new(big.Int).SetString("fffffffffffffffffffffffffffffffffffffffffffffffffffffffefffffc2f", 16)
+var secpGx, _ = new(big.Int).SetString("79be667ef9dcbbac55a06295ce870b07029bfcdb2dce28d959f2815b16f81798", 16)
+var secpGy, _ = new(big.Int).SetString("483ada7726a3c4655da4fbfc0e1108a8fd17b448a68554199c47d08ffb10d4b8", 16)
+
+type pt struct{ x, y *big.Int } // nil x = point at infinity
+
+func ptAdd(a, b pt) pt {
+	if a.x == nil {
+		return b
+	}
+	if b.x == nil {
+		return a
+	}
+	var l *big.Int
+	if a.x.Cmp(b.x) == 0 {
+		if new(big.Int).Mod(new(big.Int).Add(a.y, b.y), secpP).Sign() == 0 {
+			return pt{}
+		}
+		num := new(big.Int).Mul(a.x, a.x)
+		num.Mul(num, big.NewInt(3))
+		den := new(big.Int).Lsh(a.y, 1)
+		l = num.Mul(num, den.ModInverse(den, secpP))
+	} else {
+		num := new(big.Int).Sub(b.y, a.y)
+		den := new(big.Int).Sub(b.x, a.x)
+		den.Mod(den, secpP)
+		l = num.Mul(num, den.ModInverse(den, secpP))
+	}
+	l.Mod(l, secpP)
+	x := new(big.Int).Mul(l, l)
+	x.Sub(x, a.x).Sub(x, b.x).Mod(x, secpP)
+	y := new(big.Int).Sub(a.x, x)
+	y.Mul(y, l).Sub(y, a.y).Mod(y, secpP)
+	return pt{x, y}
+}
+
+func ptMul(k *big.Int, p pt) pt {
+	acc := pt{}
+	for i := k.BitLen() - 1; i >= 0; i-- {
+		acc = ptAdd(acc, acc)
+		if k.Bit(i) == 1 {
+			acc = ptAdd(acc, p)
+		}
+	}
+	return acc
+}
+
 func genericVerify(pub *ecdsa.PublicKey, hash []byte, r, s *big.Int) bool {
-	c := pub.Curve
-	n := c.Params().N
+	// the key is on the curve
+	lhs := new(big.Int).Mul(pub.Y, pub.Y)
+	rhs := new(big.Int).Mul(pub.X, pub.X)
+	rhs.Mul(rhs, pub.X).Add(rhs, big.NewInt(7))
+	if lhs.Mod(lhs, secpP).Cmp(rhs.Mod(rhs, secpP)) != 0 {
+		return false
+	}
 	e := new(big.Int).SetBytes(hash)
-	w := new(big.Int).ModInverse(s, n)
+	w := new(big.Int).ModInverse(s, secpN)
 	if w == nil {
 		return false
 	}
 	u1 := new(big.Int).Mul(e, w)
-	u1.Mod(u1, n)
+	u1.Mod(u1, secpN)
 	u2 := new(big.Int).Mul(r, w)
-	u2.Mod(u2, n)
-	x1, y1 := c.ScalarBaseMult(u1.Bytes())
-	x2, y2 := c.ScalarMult(pub.X, pub.Y, u2.Bytes())
-	x, y := c.Add(x1, y1, x2, y2)
-	if x.Sign() == 0 && y.Sign() == 0 {
+	u2.Mod(u2, secpN)
+	q := ptAdd(ptMul(u1, pt{secpGx, secpGy}), ptMul(u2, pt{pub.X, pub.Y}))
+	if q.x == nil {
 		return false
 	}
-	x.Mod(x, n)
-	return x.Cmp(r) == 0
+	return new(big.Int).Mod(q.x, secpN).Cmp(r) == 0
 }
 
 func bigIntToStr18(v *big.Int) string {
@@ -956,8 +1041,8 @@ func ethMutants(r *hx.Rng, b *ethBase) []mutant {
 	sigAlt("zero-r", "C07/eth-sig:degenerate", func(x *rawTx) { x.R.SetInt64(0) })
 	sigAlt("zero-s", "C07/eth-sig:degenerate", func(x *rawTx) { x.S.SetInt64(0) })
 	sigAlt("r-plus-n", "C07/eth-sig:degenerate", func(x *rawTx) { x.R.Add(x.R, secpN) })
-	sigAlt("r-bitflip", "C07/eth-sig:bitflip", func(x *rawTx) { x.R.SetBit(x.R, r.Intn(255), x.R.Bit(0)^1^x.R.Bit(1)) })
-	sigAlt("s-bitflip", "C07/eth-sig:bitflip", func(x *rawTx) { x.S.SetBit(x.S, r.Intn(250), 1^x.S.Bit(7)) })
+	sigAlt("r-bitflip", "C07/eth-sig:bitflip", func(x *rawTx) { i := r.Intn(255); x.R.SetBit(x.R, i, x.R.Bit(i)^1) })
+	sigAlt("s-bitflip", "C07/eth-sig:bitflip", func(x *rawTx) { i := r.Intn(250); x.S.SetBit(x.S, i, x.S.Bit(i)^1) })
 	// other chains / no chain, honest signatures by the same key
 	for _, c := range []int64{1, 2025, 9501, 9499, 4750, 19000} {
 		ob := signEth(nil, b.raw, b.key, big.NewInt(c))
@@ -985,10 +1070,11 @@ func ethMutants(r *hx.Rng, b *ethBase) []mutant {
 
 // ---------- evaluation ----------
 var classSeen = map[string]int{}
+var caseNo int
 
 func toModel(r *hx.Rng, class string, quota int) bool {
 	classSeen[class]++
-	return classSeen[class] <= quota || r.Intn(12) == 0
+	return classSeen[class] <= quota || r.Intn(40) == 0
 }
 
 func main() {
@@ -1010,11 +1096,11 @@ func main() {
 		os.Exit(2)
 	}
 	r := hx.NewRng(a.Seed)
-	cs = hx.NewCases(a.Out, "From Coq Require Import ZArith.\nFrom V.C07 Require Import Model Harness.", "string * N * tx * list oent * obs", "check", 150)
+	cs = hx.NewCases(a.Out, "From Coq Require Import ZArith.\nFrom V.C07 Require Import Model Harness.", "fld * N * tx * list oent * obs", "check", 150)
 	thorough := a.Tier == "thorough"
-	quota := 40
+	quota := 10
 	if thorough {
-		quota = 150
+		quota = 100
 	}
 	ident := func(class string, tx *types.Transaction) string {
 		sg := ""
@@ -1116,6 +1202,14 @@ func main() {
 		addCase("witness:homestead", hb.wrap, func() int { c, _ := runVerify(hb.wrap); return c }())
 		res.Note("fixed Homestead witness: ExtraData=" + hb.wrap.ExtraData + " Source=" + hb.wrap.Source + " Hash=" + hb.wrap.Hash.Hex() + " Data=" + hb.wrap.Data)
 		for _, o := range ethOracle(hb.enc) {
+			res.Note("witness oracle: " + o.coq())
+		}
+		// the same content honestly signed under EIP-155 for this chain (Example of C07_eth_complete in Props.v)
+		eb := signEth(nil, raw, k, chainBig)
+		eval("honest:eth-eip155", "C07/complete:eth", eb.wrap, true)
+		addCase("witness:eip155", eb.wrap, func() int { c, _ := runVerify(eb.wrap); return c }())
+		res.Note("fixed EIP-155 witness: ExtraData=" + eb.wrap.ExtraData + " Source=" + eb.wrap.Source + " Hash=" + eb.wrap.Hash.Hex())
+		for _, o := range ethOracle(eb.enc) {
 			res.Note("witness oracle: " + o.coq())
 		}
 	}
